@@ -2203,9 +2203,9 @@ class LogicalFile:
             data = {}
 
         if isinstance(data, dict):
-            self._data_dict = self._data_dict | data
+            # (the data passed for this write only are not kept: they must not show up in later writes)
             data_object = DictDataWrapper(
-                self._data_dict,
+                self._data_dict | data,
                 mapping=fr.channel_name_mapping,
                 known_dtypes=fr.known_channel_dtypes_mapping,
                 from_idx=from_idx,
